@@ -488,6 +488,14 @@ func (c *Chain) SpecConfig() map[string]interface{} {
 	for _, x := range all {
 		accs = append(accs, x.n)
 	}
+	// the same accounts in raw address-byte order (the order x/staking iterates delegations in)
+	sort.Slice(all, func(i, j int) bool {
+		return string(sdk.MustAccAddressFromBech32(all[i].a)) < string(sdk.MustAccAddressFromBech32(all[j].a))
+	})
+	accsRaw := []string{}
+	for _, x := range all {
+		accsRaw = append(accsRaw, x.n)
+	}
 	datas := []string{}
 	for i := 1; i <= 12; i++ {
 		datas = append(datas, fmt.Sprintf("D%d", i))
@@ -503,7 +511,7 @@ func (c *Chain) SpecConfig() map[string]interface{} {
 	sn, sd := ratio(c.Cfg.ShareThreshold)
 	an, ad := ratio(c.Cfg.APY)
 	return map[string]interface{}{
-		"accs": accs, "datas": datas, "didOrder": dids, "vals": vals,
+		"accs": accs, "accsRaw": accsRaw, "datas": datas, "didOrder": dids, "vals": vals,
 		"blockReward": c.Cfg.BlockReward, "baseline": c.Cfg.Baseline, "apyNum": an, "apyDen": ad,
 		"halvingPeriod": c.Cfg.HalvingPeriod, "adjustPeriod": c.Cfg.AdjustPeriod,
 		"vstorThreshold": c.Cfg.VstorThreshold, "shareNum": sn, "shareDen": sd,
